@@ -249,7 +249,7 @@ fn lifecycle_body(progs: Vec<Vec<Step>>) -> impl Fn() + Send + Sync + 'static {
 // ------------------------------------------------------------------------------------------
 // data path (C03, connection part)
 
-fn data_body(p: Params, sends: usize, receives: usize) -> impl Fn() + Send + Sync + 'static {
+fn data_body(p: Params, prefill: usize, sends: usize, receives: usize) -> impl Fn() + Send + Sync + 'static {
     move || {
         let name = fresh_name();
         let sender = builder(&name, p).create_sender().expect("sender");
@@ -258,10 +258,24 @@ fn data_body(p: Params, sends: usize, receives: usize) -> impl Fn() + Send + Syn
         // (offsets sent, offsets handed back by try_send as overflow, reclaimed)
         let s_log: Arc<Mutex<(Vec<u64>, Vec<u64>, Vec<u64>)>> = Arc::new(Mutex::new((vec![], vec![], vec![])));
         let r_log: Arc<Mutex<Vec<u64>>> = Arc::new(Mutex::new(vec![]));
+        // samples that are already in flight when the two threads start
+        for i in 0..prefill {
+            let off = PointerOffset::new((i + 1) * 8);
+            match sender.try_send(off, 8, ch) {
+                Ok(ev) => {
+                    let mut l = s_log.lock().unwrap();
+                    l.0.push(off.offset() as u64);
+                    if let Some(e) = ev {
+                        l.1.push(e.offset() as u64);
+                    }
+                }
+                Err(e) => ixmc::fail(format!("try_send failed: prefill try_send returned {e:?}")),
+            }
+        }
         let hs = {
             let s_log = s_log.clone();
             ixmc::spawn(move || {
-                for i in 0..sends {
+                for i in prefill..prefill + sends {
                     let off = PointerOffset::new((i + 1) * 8);
                     match sender.try_send(off, 8, ch) {
                         Ok(ev) => {
@@ -335,13 +349,90 @@ fn data_body(p: Params, sends: usize, receives: usize) -> impl Fn() + Send + Syn
         if !evicted.is_empty() {
             ixmc::note("overflow-eviction");
         }
-        if sent.len() < sends {
+        if sent.len() < sends + prefill {
             ixmc::note("receive-buffer-full");
         }
         if std::env::var("H_CONN_DEBUG").is_ok() {
             eprintln!("OUT sent={sent:?} received={received:?} evicted={evicted:?} reclaimed={reclaimed:?}");
         }
         ixmc::observe(ixmc::hash_of(&(sent, received, evicted, reclaimed)));
+    }
+}
+
+/// Back-pressure ping-pong without overflow: like a publisher, the sender first reclaims
+/// everything that came back and then tries to send, retrying while the buffer is full; the
+/// receiver receives and releases at once.  Whatever the receiver manages to release while the
+/// sender is stalled anywhere inside its send must fit into the completion queue.
+fn pingpong_body(p: Params, count: usize) -> impl Fn() + Send + Sync + 'static {
+    move || {
+        let name = fresh_name();
+        let sender = builder(&name, p).create_sender().expect("sender");
+        let receiver = builder(&name, p).create_receiver().expect("receiver");
+        let ch = ChannelId::new(0);
+        let reclaimed_early: Arc<Mutex<Vec<u64>>> = Arc::new(Mutex::new(Vec::new()));
+        let re2 = reclaimed_early.clone();
+        let hs = ixmc::spawn(move || {
+            let reclaimed_early = re2;
+            for i in 0..count {
+                let off = PointerOffset::new((i + 1) * 8);
+                loop {
+                    while let Ok(Some(o)) = sender.reclaim(ch) {
+                        reclaimed_early.lock().unwrap().push(o.offset() as u64);
+                    }
+                    match sender.try_send(off, 8, ch) {
+                        Ok(None) => break,
+                        Ok(Some(e)) => {
+                            ixmc::fail(format!("offset evicted without overflow: try_send handed back {:?}", e.offset()));
+                            break;
+                        }
+                        Err(ZeroCopySendError::ReceiveBufferFull) => {
+                            ixmc::note("sender-waited-for-space");
+                            ixmc::yield_now();
+                        }
+                        Err(e) => {
+                            ixmc::fail(format!("try_send failed: try_send returned {e:?}"));
+                            break;
+                        }
+                    }
+                }
+            }
+            sender
+        });
+        let hr = ixmc::spawn(move || {
+            let mut got: Vec<u64> = Vec::new();
+            let mut idle = 0;
+            while got.len() < count && idle < 50 {
+                match receiver.receive(ch) {
+                    Ok(Some(o)) => {
+                        got.push(o.offset() as u64);
+                        if let Err(e) = receiver.release(o, ch) {
+                            ixmc::fail(format!("release failed: release of offset {} returned {e:?} (received so far {got:?})", o.offset()));
+                        }
+                    }
+                    Ok(None) => {
+                        idle += 1;
+                        ixmc::yield_now();
+                    }
+                    Err(e) => {
+                        ixmc::fail(format!("receive failed: {e:?}"));
+                        break;
+                    }
+                }
+            }
+            (receiver, got)
+        });
+        let sender = hs.join();
+        let (receiver, got) = hr.join();
+        let want: Vec<u64> = (0..count).map(|i| ((i + 1) * 8) as u64).collect();
+        ixmc::check!(got == want, "offset lost or reordered: sent {:?}, received {:?}", want, got);
+        let mut reclaimed: Vec<u64> = reclaimed_early.lock().unwrap().clone();
+        while let Ok(Some(o)) = sender.reclaim(ch) {
+            reclaimed.push(o.offset() as u64);
+        }
+        reclaimed.sort();
+        ixmc::check!(reclaimed == want, "completion queue lost or duplicated an offset: released {:?}, reclaimed {:?}", got, reclaimed);
+        ixmc::observe(ixmc::hash_of(&(got, reclaimed)));
+        drop(receiver);
     }
 }
 
@@ -383,19 +474,29 @@ fn main() {
             required_notes: req,
         });
     }
-    for (buffer, borrow, overflow) in [(1usize, 1usize, true), (2, 1, true), (1, 1, false), (2, 2, false)] {
+    for (buffer, borrow, overflow, prefill) in [(1usize, 1usize, true, 0usize), (2, 1, true, 0), (1, 1, false, 0), (2, 2, false, 0), (1, 1, true, 1), (1, 2, true, 1), (2, 1, true, 2)] {
         let p = Params { buffer, borrow, overflow };
         cases.push(Case {
-            name: format!("data/buffer{buffer}/borrow{borrow}/overflow{overflow}"),
+            name: format!("data/buffer{buffer}/borrow{borrow}/overflow{overflow}/prefill{prefill}"),
             cfg: Config { post_load: true, stale_reads: true, ..cfg.clone() },
             quick: pb(&[(0, 0), (1, 0), (2, 0)]),
             thorough: pb(&[(0, 0), (1, 0), (2, 0), (3, 0), (2, 1)]),
             split: (2, 8),
-            body: Arc::new(data_body(p, 3, 2)),
+            body: Arc::new(data_body(p, prefill, 3 - prefill.min(1), 3)),
             required_notes: if overflow { vec!["overflow-eviction"] } else { vec!["receive-buffer-full"] },
         });
     }
-    let prop = if std::env::args().any(|a| a == "--c03") { "C03" } else { "C13" };
-    let _ = prop;
+    for (buffer, borrow, count) in [(1usize, 1usize, 3usize), (1, 1, 4), (1, 2, 4)] {
+        let p = Params { buffer, borrow, overflow: false };
+        cases.push(Case {
+            name: format!("data/pingpong/buffer{buffer}/borrow{borrow}/count{count}"),
+            cfg: Config { post_load: true, stale_reads: false, ..cfg.clone() },
+            quick: pb(&[(0, 0), (1, 0)]),
+            thorough: pb(&[(0, 0), (1, 0), (2, 0)]),
+            split: (2, 8),
+            body: Arc::new(pingpong_body(p, count)),
+            required_notes: vec!["sender-waited-for-space"],
+        });
+    }
     ixmc::coord::main("h_conn", "C13", cases);
 }
